@@ -164,6 +164,8 @@ def _vf_bin(op: str, l: Any, r: Any) -> Any:
 	if tl is str or tr is str:
 		if op == 'Add' and tl is str and tr is str:
 			return l + r
+		if op == 'Mult' and tl is str and tr is int and 0 <= r <= 8:
+			return l * r
 		raise OutOfSubset(f'str operator {op}')
 	if tl is list or tr is list:
 		raise OutOfSubset(f'list operator {op}')
@@ -218,8 +220,9 @@ def _vf_b(v: Any) -> bool:
 
 def _vf_idx(c: Any, k: Any) -> Any:
 	if type(c) in (list, str, tuple):
-		if type(k) is not int or not (0 <= k < len(c)):
-			raise OutOfSubset('index out of range / negative')
+		# negative indices are ordinary Python; tranp emits them verbatim (C++: out of bounds) — generated only by the probe programs
+		if type(k) is not int or not (-len(c) <= k < len(c)):
+			raise OutOfSubset('index out of range')
 		return c[k]
 	if type(c) is dict:
 		if k not in c:
@@ -257,7 +260,10 @@ def _vf_call(obj: Any, name: str, *args: Any) -> Any:
 		elif name == 'insert':
 			if not (type(args[0]) is int and 0 <= args[0] <= len(obj)):
 				raise OutOfSubset('insert index')
-		elif name not in ('append', 'extend', 'clear', 'copy'):
+		elif name in ('remove', 'index'):
+			if args[0] not in obj:
+				raise OutOfSubset(f'list.{name} of a missing element')
+		elif name not in ('append', 'extend', 'clear', 'copy', 'sort', 'reverse'):
 			raise OutOfSubset(f'list.{name}')
 	elif t is dict:
 		if name == 'pop':
@@ -266,10 +272,10 @@ def _vf_call(obj: Any, name: str, *args: Any) -> Any:
 		elif name == 'get':
 			if len(args) != 2:
 				raise OutOfSubset('dict.get without default')
-		elif name not in ('clear', 'copy', 'keys', 'values', 'items'):
+		elif name not in ('clear', 'copy', 'keys', 'values', 'items', 'update'):
 			raise OutOfSubset(f'dict.{name}')
 	elif t is str:
-		if name not in ('startswith', 'endswith', 'find'):
+		if name not in ('startswith', 'endswith', 'find', 'count', 'split', 'upper', 'lower', 'replace', 'strip', 'join'):
 			raise OutOfSubset(f'str.{name}')
 	return getattr(obj, name)(*args)
 
@@ -725,6 +731,9 @@ class Pipeline:
 					return
 				for n in ix:
 					cpp, end = Cxx.run(exe, f'p{n}')
+					if end == 'timeout':
+						# a long but finite run on a loaded machine must not look like an endless loop: one generous retry
+						cpp, end = Cxx.run(exe, f'p{n}', time_limit=20.0)
 					r = judge(progs[n], pys[n] or {}, cpp, end)
 					r['emitted'] = texts[n]
 					results[n] = r
